@@ -145,9 +145,13 @@ func c15Locate(blocks []c15Block, el *c15El, ordinal int) interface{} {
 	none := map[string]interface{}{"t": "none"}
 	switch el.T {
 	case "heading":
+		k := 0 // ordinal: the position of this heading among the source headings with the same text
 		for _, b := range blocks {
 			if b.T == "heading" && c15HasWord(b.S, el.W) {
-				return map[string]interface{}{"t": "heading", "level": b.Level, "s": el.W}
+				if k == ordinal {
+					return map[string]interface{}{"t": "heading", "level": b.Level, "s": el.W}
+				}
+				k++
 			}
 		}
 	case "list":
@@ -219,6 +223,9 @@ func c15Record(in, out string) error {
 			absOf := map[int]c15AbsTable{}
 			h1 := c15El{T: "heading", Level: 1 + rnd.Intn(9), W: "hA"}
 			h2 := c15El{T: "heading", Level: 1 + rnd.Intn(9), W: "hB"}
+			if rnd.Intn(3) == 0 {
+				h2.W = "hA" // the same heading text again, further down
+			}
 			lst := c15El{T: "list", Items: items, Uniform: isUniform}
 			add := func(el c15El, abs *c15AbsTable) {
 				if abs != nil {
@@ -272,13 +279,19 @@ func c15Record(in, out string) error {
 					}
 					blocks := c15ReadMd(o.Md)
 					ordinal := 0
+					hseen := map[string]int{}
 					for n := range c.Els {
 						el := &c.Els[n]
 						if el.T == "para" || (o.Only != nil && !o.Only[n]) {
 							continue
 						}
+						ord := ordinal
+						if el.T == "heading" {
+							ord = hseen[el.W]
+							hseen[el.W]++
+						}
 						events = append(events, Event{"event": "Md", "writer": w, "el": absEl(n, el), "off": c.Off, "mx": c.Mx,
-							"got": c15Tilde(c15Locate(blocks, el, ordinal)), "md": c15Truncate(o.Md, 1500)})
+							"got": c15Tilde(c15Locate(blocks, el, ord)), "md": c15Truncate(o.Md, 1500)})
 						if el.T == "table" {
 							ordinal++
 						}
